@@ -19,7 +19,7 @@ func init() { register(c20{}) }
 func (c20) ID() string            { return "C20" }
 func (c20) EvidenceLevel() string { return "exploration" }
 func (c20) Rule() string {
-	return "case = (level in {-2,-1,1,2}, 32K/4K window, input of n bytes written with one Write and Close, no Flush, on a fresh Writer or (every fourth case) on one that was Reset after an earlier stream which was closed, abandoned, or failed on its destination during Close or Flush). Expansion inputs: uniform, near-uniform, Fibonacci- and geometric-skewed alphabets, statistics flipping every 20000 bytes, random data with sparse far 4-byte matches, all-equal 65536-byte blocks, sizes 0,1,100,8449,65535,65536,65537,200000,1 MiB: len(out) <= n + n/32 + 256. Effectiveness inputs: every period 1..64 x n in {65536,65537,100000,300000} at levels 1,2,-1: len(out) <= n/32 + 1200. The stream must also pass the C01 decode oracle. Non-trivial: n > 0; distinct by (setting, data digest)."
+	return "case = (level in {-2,-1,1,2}, 32K/4K window, input of n bytes written with one Write and Close, no Flush, on a fresh Writer or (every fourth case) on one that was Reset before its first write or after an earlier stream (incl. skewed data ending in one rare long repeat) which was closed, abandoned, or failed on its destination during Close or Flush; every eighth case goes through the gzip or zlib Writer, the bounds then allow 18 bytes of container). Expansion inputs: uniform, near-uniform, Fibonacci- and geometric-skewed alphabets, statistics flipping every 20000 bytes, random data with sparse far 4-byte matches, all-equal 65536-byte blocks, sizes 0,1,100,8449,65535,65536,65537,200000,1 MiB: len(out) <= n + n/32 + 256. Effectiveness inputs: every period 1..64 x n in {65536,65537,100000,300000} at levels 1,2,-1: len(out) <= n/32 + 1200. The stream must also pass the C01 decode oracle. Non-trivial: n > 0; distinct by (setting, data digest)."
 }
 func (c20) NumCases(tier string) int {
 	if tier == "thorough" {
@@ -89,14 +89,35 @@ func (c20) Run(c *mon.Ctx, i int) {
 		d = gen.Make(r, fam, n)
 	}
 	n := len(d.B)
+	overhead := 0
+	if i%4 == 3 && i%8 == 7 && s.Level != 0 {
+		// the same compressor reached through the gzip / zlib entry points
+		s.Wrapper = []string{"gzip", "zlib"}[r.Intn(2)]
+		s.Win4K = false
+		overhead = 18
+	}
 	// history of the Writer before the measured stream: fresh, or Reset after an
 	// earlier stream that was finished, abandoned, or failed on its destination
 	history := "fresh"
 	var out []byte
 	var err error
 	if i%4 == 3 {
-		history = []string{"reset-after-close", "reset-after-failed-close", "reset-after-failed-flush", "reset-after-abandoned", "reset-after-failed-close"}[r.Intn(5)]
+		history = []string{"reset-after-close", "reset-after-failed-close", "reset-after-failed-flush", "reset-after-abandoned", "reset-after-failed-close", "reset-before-first-write", "reset-after-close"}[r.Intn(7)]
 		prev := gen.Make(r, []string{"uniform", "text", "alpha4"}[r.Intn(3)], r.Pick(1, 40, 700, 3000, 20000, 70000, 200000))
+		if r.Chance(1, 3) {
+			// skewed data whose last block holds one rare long repeat: the rarest
+			// symbols of the earlier stream get the longest codes
+			b := gen.Make(r, []string{"text", "fibexact", "geom", "fib"}[r.Intn(4)], r.Pick(3000, 20000, 70000)).B
+			k := r.Range(258, 600)
+			if k > len(b)/2 {
+				k = len(b) / 2
+			}
+			b = append(b, b[len(b)-k:]...)
+			prev = gen.Data{Desc: fmt.Sprintf("skewed-with-one-long-repeat/%d", len(b)), B: b}
+		}
+		if history == "reset-before-first-write" {
+			prev.B = nil
+		}
 		sink := &Sink{}
 		if history == "reset-after-failed-close" || history == "reset-after-failed-flush" {
 			sink.FailAt = r.Pick(1, 1, 2, 3)
@@ -106,7 +127,9 @@ func (c20) Run(c *mon.Ctx, i int) {
 		var w impl.Writer
 		w, err = NewWriter(c.API, s, sink)
 		if err == nil {
-			w.Write(prev.B)
+			if len(prev.B) > 0 {
+				w.Write(prev.B)
+			}
 			switch history {
 			case "reset-after-close", "reset-after-failed-close":
 				w.Close()
@@ -129,13 +152,24 @@ func (c20) Run(c *mon.Ctx, i int) {
 	c.Eval(1)
 	c.Count("writer-history:"+strings.SplitN(history, "(", 2)[0], 1)
 	desc := map[string]interface{}{"setting": s.String(), "data": d.Desc, "data_sha": mon.Sha(d.B), "n": n, "out_len": len(out), "writer_history": history}
-	if sig, what, _ := DecodeChecks(c.API, out, d.B, nil); sig != "" {
+	body := out
+	switch s.Wrapper {
+	case "gzip":
+		if b, ok := gzipDeflatePart(out); ok {
+			body = b
+		}
+	case "zlib":
+		if b, ok := zlibDeflatePart(out); ok {
+			body = b
+		}
+	}
+	if sig, what, _ := DecodeChecks(c.API, body, d.B, nil); sig != "" {
 		c.Violate("round-trip|"+sig, fmt.Sprintf("%s data %s: %s", s, d.Desc, what), desc)
 		return
 	}
-	bound := n + n/32 + 256
+	bound := n + n/32 + 256 + overhead
 	if len(out) > bound {
-		c.Violate(fmt.Sprintf("expansion|level=%d|win4k=%v", s.Level, s.Win4K), fmt.Sprintf("%s, data %s: %d bytes in, %d bytes out, bound n+n/32+256 = %d", s, d.Desc, n, len(out), bound), desc)
+		c.Violate(fmt.Sprintf("expansion|level=%d|win4k=%v|wrapper=%s", s.Level, s.Win4K, s.Wrapper), fmt.Sprintf("%s, data %s: %d bytes in, %d bytes out, bound n+n/32+256 = %d", s, d.Desc, n, len(out), bound), desc)
 		return
 	}
 	c.Max(fmt.Sprintf("worst (out-n)/(n/32+256) at %s", s), float64(len(out)-n)/float64(n/32+256))
